@@ -75,7 +75,8 @@ func (c06) RunBatch(ctx *core.Ctx, batch int) {
 				st.FullParens = true
 			}
 			text := qt.Print(t, st)
-			toks, _ := oracle.Lex(text)
+			var toks []oracle.Tok
+			ctx.Call("Lexer", func() { toks, _ = oracle.Lex(text) })
 			words := make([]string, len(toks))
 			for k, tk := range toks {
 				words[k] = tk.Val
@@ -119,7 +120,11 @@ func tokTypes(toks []oracle.Tok) string {
 }
 
 func c06Check(ctx *core.Ctx, kind, in string) {
-	toks, lexErr := oracle.Lex(in)
+	var toks []oracle.Tok
+	lexErr := false
+	if !ctx.Call("Lexer", func() { toks, lexErr = oracle.Lex(in) }) {
+		return
+	}
 	for _, df := range []string{"", "dfield"} {
 		e, err, ok := parse(ctx, in, df)
 		if !ok {
